@@ -66,6 +66,8 @@ def gen_case(rng: random.Random, tier: str, bias: str = ''):
 
 
 def nontrivial(case, res):
+    if case.get('kind') == 'timed':
+        return res.get('timed') is not None and (case['s'] is not None or case['r'] is not None)
     return case['m'] + case['n'] >= 3 and res.get('switches', 0) >= 1 and any(any(row) for row in case['items'])
 
 
@@ -377,3 +379,153 @@ def model_lines(cid, case, res):
     else:
         lines.append('end ' + ' '.join(f'{k}={v}' for k, v in res['final'].items()))
     return lines
+
+
+# --------------------------------------------------------------------------------------------------
+# Timed calls: one blocked `put`/`get` with an explicit `timeout` (shorter than, equal to, longer than
+# the wait interval, or none), on `IterableQueue.put` and on `ResponsiveQueue.put/get` directly, with
+# a stop request and/or a rescue (the operation becomes possible) at generated moments.
+# Times are in units of Q = 0.25 s; the wait interval is WQ = 4 units.  Timeouts and the start of the
+# call are even, rescue times odd, so a rescue never coincides with a poll; a stop request may
+# coincide with a poll (then the model allows both orders).
+# --------------------------------------------------------------------------------------------------
+Q = 0.25
+WQ = 4
+
+
+def gen_timed_case(rng: random.Random, tier: str):
+    target = rng.choice(['iq.put', 'iq.put', 'rq.put', 'rq.get', 'rq.get'])
+    T = rng.choice([None, None, 0, 2, 4, 6, 10, 12, 16, 80])     # own timeout: none, 0, .5, 1, 1.5, 2.5, 3, 4, 20 s
+    nowait = T == 0 and target != 'iq.put' and rng.random() < 0.5  # block=False
+    a = rng.choice([0, 0, 2, 4])                                   # the call starts at `a`
+    s = rng.choice([None, 0, 1, 2, 3, 4, 5, 6, 8, 9, 12, 13, 14, 20])   # stop request at `s` (absolute)
+    r = rng.choice([None, None, None, a + 1, a + 3, a + 5, a + 7, a + 11, a + 17])   # rescue at `r` (odd offset)
+    if T is None and s is None and r is None:
+        s = rng.choice([0, 2, 3, 4, 6, 9])
+    ch = rng.choice([('random', 0.0), ('random', 0.0), ('sticky', 0.2, 0.0), ('pct', 2, 60, 0.0)])
+    return dict(kind='timed', target=target, T=T, nowait=nowait, a=a, s=s, r=r, chooser=list(ch),
+                seed=rng.randrange(1 << 30))
+
+
+def timed_rel(case):
+    """(T, s, r) relative to the start of the call, as the model takes them"""
+    a = case['a']
+    s = None if case['s'] is None else max(case['s'] - a, 0)
+    r = None if case['r'] is None else case['r'] - a
+    return case['T'], s, r
+
+
+def run_timed_case(case):
+    target, T, a, s, r = case['target'], case['T'], case['a'], case['s'], case['r']
+    is_put = target.endswith('put')
+    out = {}
+    mon = []
+
+    def main():
+        to_stop = threading.Event()
+        raw = queue.Queue(1 if is_put else 0)
+        rq = ResponsiveQueue(raw, to_stop)
+        iq = None
+        if target == 'iq.put':
+            iq = IterableQueue(raw, num_suppliers=1)    # thread mode (see run_case), then as __init__ does:
+            iq._q = rq
+            iq._to_stop = to_stop
+        if is_put:
+            raw.put('x0')
+
+        def caller():
+            if a:
+                time.sleep(a * Q)
+            out['t_op'] = detsched.now()
+            try:
+                if target == 'iq.put':
+                    iq.put('x1') if T is None else iq.put('x1', timeout=T * Q)
+                elif target == 'rq.put':
+                    if case['nowait']:
+                        rq.put('x1', block=False)
+                    else:
+                        rq.put('x1') if T is None else rq.put('x1', timeout=T * Q)
+                else:
+                    if case['nowait']:
+                        out['value'] = rq.get(block=False)
+                    else:
+                        out['value'] = rq.get() if T is None else rq.get(timeout=T * Q)
+                out['how'] = 'ok'
+            except StopRequested:
+                out['how'] = 'stop'
+            except (queue.Full, queue.Empty) as e:
+                out['how'] = 'expire'
+                out['exc'] = type(e).__name__
+            out['t_end'] = detsched.now()
+
+        def stopper():
+            if s:
+                time.sleep(s * Q)
+            out['t_stop'] = detsched.now()
+            to_stop.set()
+
+        def rescuer():
+            time.sleep(r * Q)
+            if is_put:
+                raw.get()
+            else:
+                raw.put('y')
+
+        ts = [threading.Thread(target=caller, name='K')]
+        if s is not None:
+            ts.append(threading.Thread(target=stopper, name='X'))
+        if r is not None:
+            ts.append(threading.Thread(target=rescuer, name='R'))
+        random.Random(case['seed']).shuffle(ts)
+        for t in ts:
+            t.start()
+        for t in ts:
+            t.join()
+        return list(raw.queue)
+
+    chooser = detsched.make_chooser(tuple(case['chooser']), case['seed'])
+    v, e, sch = detsched.run(main, chooser, max_steps=case.get('max_steps', 4000))
+    res = dict(events=[], steps=sch.steps, switches=sch.switches, monitors=mon, timed=None)
+    if e is not None:
+        info = e.args[0] if isinstance(e, detsched.Deadlock) and e.args else repr(e)
+        mon.append(dict(prop='C17', rule='timed-hang' if isinstance(e, detsched.Deadlock) else 'unexpected-exception',
+                        detail=f'{target}(timeout={T}): {info}; so far {out}'))
+        return res
+    how = out.get('how')
+    t_end = int(round((out['t_end'] - out['t_op']) / Q))
+    res['timed'] = [how, t_end]
+    res['events'] = [[target, how, t_end]]
+    Tm, sm, rm = timed_rel(case)
+    what = f'{target}({"block=False" if case["nowait"] else "timeout=" + str(None if T is None else T * Q)})'
+    # ---- C17 stop clause on this call (times in units of 0.25 s relative to the start of the call):
+    # the call ends no later than its own timeout, the rescue, or one wait interval after the stop request;
+    # StopRequested only after a stop request and within one interval of it; Full/Empty exactly at the timeout
+    ends = [x for x in (Tm, rm, None if sm is None else sm + WQ) if x is not None]
+    if t_end > min(ends):
+        if sm is not None and min(ends) == sm + WQ:
+            mon.append(dict(prop='C17', rule='timed-stop-late',
+                            detail=f'{what} blocked since 0, stop requested at {sm * Q}s: ended with {how} at {t_end * Q}s, '
+                                   f'later than one wait interval after the stop request'))
+        else:
+            mon.append(dict(prop='C17', rule='timed-late', detail=f'{what}: ended with {how} at {t_end * Q}s, expected by {min(ends) * Q}s'))
+    if how == 'stop' and (sm is None or not (sm <= t_end <= sm + WQ)):
+        mon.append(dict(prop='C17', rule='timed-stop-spurious', detail=f'{what}: StopRequested at {t_end * Q}s, stop requested at {sm}'))
+    if how == 'expire' and t_end != Tm:
+        mon.append(dict(prop='C17', rule='timed-expiry', detail=f'{what}: {out.get("exc")} at {t_end * Q}s, own timeout {Tm}'))
+    if how == 'ok' and t_end != rm:
+        mon.append(dict(prop='C17', rule='timed-ok', detail=f'{what}: returned at {t_end * Q}s, operation possible at {rm}'))
+    # nothing is enqueued / dequeued by a call that raised
+    exp_q = ([] if r is not None else ['x0']) + (['x1'] if how == 'ok' else []) if is_put else \
+        ([] if (r is None or how == 'ok') else ['y'])
+    if v != exp_q:
+        mon.append(dict(prop='C17', rule='timed-queue-content', detail=f'{what} ended with {how}: queue holds {v}, expected {exp_q}'))
+    return res
+
+
+_run_iq_case = run_case
+
+
+def run_case(case):     # noqa: F811  (dispatch on the case kind)
+    if case.get('kind') == 'timed':
+        return run_timed_case(case)
+    return _run_iq_case(case)
